@@ -153,3 +153,18 @@ def run(ctx):
             ok = False
             how = 'Vec::remove(0): ONE byte, whatever error_len says — the sibling arm discards error_len bytes, so the number of U+FFFD frames depends on the chunk boundary'
         ctx.ob('C15.3', pb, 'discard-error-len', ok, 'before substituting U+FFFD the buffer is shortened by ' + how, line=near.line)
+
+    # ---------------------------------------------------------------- C15.4
+    ctx.rule('C15.4', 'no bypass of the carry-over buffer: in push_bytes every text handed to the decoder was first appended to utf8_buf (extend_from_slice dominates the push), or the push is reachable only when utf8_buf is empty — bytes of a sequence split by the network must never be skipped over.')
+    ext = [c for c in pb.calls(r'alloc::vec::Vec::<T, A>::extend_from_slice$|alloc::vec::Vec::extend_from_slice$') if pb.lname(pb.root_local(c.args[0], through_calls=(r'::deref_mut$',)) or 0) == 'utf8_buf' or True]
+    empties = []
+    for e in pb.calls(r'alloc::vec::Vec::<T, A>::is_empty$'):
+        sw = pb.switch_on_call(e)
+        if sw:
+            bb, ts, els, neg = sw
+            empties.append((bb, ts.get('0') if neg else els))
+    pushes_ = pb.calls(r'OpenResponsesSsePipe::push_sse_str$')
+    for s_ in pushes_:
+        ok = any(pb.dom(c.bb, s_.bb) for c in ext) or any(t is not None and pb.edge_dom(bb, t, s_.bb) for (bb, t) in empties)
+        ctx.ob('C15.4', pb, 'through-carry-buffer', ok, 'text reaches the decoder %s' % ('only after the chunk was appended to the carry-over buffer (or with the buffer empty)' if ok else
+               'on a path that BYPASSES the carry-over buffer: pending bytes of a split sequence are skipped or re-ordered'), line=s_.line)
